@@ -19,6 +19,7 @@
 import PandoraModel.Properties.C13MatchingCost
 import PandoraModel.Properties.C13Refinement
 import PandoraModel.Properties.C13Median
+import PandoraModel.Properties.C13Bilateral
 import PandoraModel.Properties.C13CrossCheck
 
 namespace Pandora.C13
@@ -297,6 +298,60 @@ theorem pipeCone_documented (C : PipeCfg) (A : Nat) (CP : CrossCheck.Params) (ho
   simp only [pipeCone, filterCone, refineCone, costCone, mcCone, ccCone, Cone.add, Cone.sup, Cone.square,
     if_true, hoff] at *
   omega
+
+/-! ### any other local filter in place of the median (bilateral), any left map under cross-checking -/
+
+/-- (disparity, flag) after a disparity filter `filt` that does not write the flags -/
+def filtStage (C : PipeCfg) (agg : Img (List Val) → Img (List Val)) (flagL : Img McCell → Img Nat)
+    (doRefine : Bool) (filt : Img (Val × Nat) → Img Val) : Img McCell → Img (Val × Nat) :=
+  pairStep (filt ∘ refineStage C agg flagL doRefine)
+    (fun a p => (refineStage C agg flagL doRefine a p).map (fun x => x.2))
+
+theorem filtStage_local (C : PipeCfg) (hsp : 0 < C.mc.sp)
+    (hn : ∀ j : Nat, j < C.n → C.gmin * (C.mc.sp : Int) + j ≤ C.gmax * (C.mc.sp : Int))
+    {agg : Img (List Val) → Img (List Val)} {Ra : Cone} (hA : Local Ra agg)
+    {flagL : Img McCell → Img Nat} {Rf : Cone} (hF : Local Rf flagL) (doRefine : Bool)
+    {filt : Img (Val × Nat) → Img Val} {Rm : Cone} (hM : Local Rm filt) :
+    Local ((refineCone C Ra Rf).add Rm) (filtStage C agg flagL doRefine filt) := by
+  have hr := refineStage_local C hsp hn hA hF doRefine
+  have h := pairStep_local (Local.comp hr hM) (Local.map hr (fun (x : Val × Nat) => x.2))
+  refine Local.mono ?_ h
+  simp [Cone.sup, Cone.add]
+
+theorem filtStage_equivariant (C : PipeCfg) {agg : Img (List Val) → Img (List Val)} (hA : Equivariant agg)
+    {flagL : Img McCell → Img Nat} (hF : Equivariant flagL) (doRefine : Bool)
+    {filt : Img (Val × Nat) → Img Val} (hM : Equivariant filt) :
+    Equivariant (filtStage C agg flagL doRefine filt) := by
+  have hr := refineStage_equivariant C hA hF doRefine
+  exact pairStep_equivariant (Equivariant.comp hr hM) (Equivariant.map hr (fun (x : Val × Nat) => x.2))
+
+/-- **The pipeline with the bilateral filter**: cone = cost cone (⊔ flags) + the window of the filter. -/
+theorem bilateralStage_local (C : PipeCfg) (hsp : 0 < C.mc.sp)
+    (hn : ∀ j : Nat, j < C.n → C.gmin * (C.mc.sp : Int) + j ≤ C.gmax * (C.mc.sp : Int))
+    {agg : Img (List Val) → Img (List Val)} {Ra : Cone} (hA : Local Ra agg)
+    {flagL : Img McCell → Img Nat} {Rf : Cone} (hF : Local Rf flagL) (doRefine : Bool)
+    (wts : Filter.Weights) (w : Nat) (hw : 0 < w) :
+    Local ((refineCone C Ra Rf).add (bilateralCone w))
+      (filtStage C agg flagL doRefine (bilateralStep wts C.invalidMask w)) :=
+  filtStage_local C hsp hn hA hF doRefine (bilateralStep_local wts C.invalidMask w hw)
+
+/-- cross-checking of any left (disparity, flag) map against any right disparity map -/
+def ccOn (left : Img McCell → Img (Val × Nat)) (dispR : Img McCell → Img Val) (V : CrossCheck.Variant)
+    (CP : CrossCheck.Params) : Img McCell → Img CrossCheck.PixOut :=
+  fun a => ccStep V CP (fun p => (pairStep left dispR a p).map fun x => (x.1.1, x.1.2, x.2))
+
+theorem ccOn_local {left : Img McCell → Img (Val × Nat)} {RL : Cone} (hL : Local RL left)
+    {dispR : Img McCell → Img Val} {Rr : Cone} (hR : Local Rr dispR)
+    (V : CrossCheck.Variant) (CP : CrossCheck.Params) :
+    Local ((RL.sup Rr).add (ccCone CP)) (ccOn left dispR V CP) :=
+  Local.comp (Local.map (pairStep_local hL hR) (fun (x : (Val × Nat) × Val) => ((x.1.1, x.1.2, x.2) : CcCell)))
+    (ccStep_local V CP)
+
+theorem ccOn_equivariant {left : Img McCell → Img (Val × Nat)} (hL : Equivariant left)
+    {dispR : Img McCell → Img Val} (hR : Equivariant dispR) (V : CrossCheck.Variant) (CP : CrossCheck.Params) :
+    Equivariant (ccOn left dispR V CP) :=
+  Equivariant.comp (Equivariant.map (pairStep_equivariant hL hR)
+    (fun (x : (Val × Nat) × Val) => ((x.1.1, x.1.2, x.2) : CcCell))) (ccStep_equivariant V CP)
 
 /-! ### the right map is the same pipeline on the swapped pair -/
 
